@@ -480,6 +480,16 @@ func newBucketStorage(
 	htype histogramType,
 	buckets Buckets,
 ) bucketStorage {
+	// Keep a private copy of the specification: the storage is cached and
+	// compared against later requests, so it must not change when the caller
+	// reuses or modifies the slice it passed in.
+	switch b := buckets.(type) {
+	case DurationBuckets:
+		buckets = append(DurationBuckets(nil), b...)
+	case ValueBuckets:
+		buckets = append(ValueBuckets(nil), b...)
+	}
+
 	var (
 		pairs   = BucketPairs(buckets)
 		storage = bucketStorage{
